@@ -3,6 +3,7 @@
 //! a JSONL case file and writes a JSONL result file, so the Python side owns generation and oracles.
 
 mod hostfns;
+mod intr;
 mod parse;
 mod run;
 mod util;
@@ -18,6 +19,7 @@ fn main() {
         "run" => run::main(rest),
         "parse" => parse::main(rest),
         "globals" => run::globals_main(rest),
+        "intr" => intr::main(rest),
         other => {
             eprintln!("unknown sub-command {other}");
             2
